@@ -16,6 +16,7 @@ type vxOriginRespT struct {
 	cc         *vxOriginCC
 	status     int
 	hasExpires bool
+	hasLM      bool
 	bodyFail   bool
 	resp       *http.Response
 }
@@ -44,6 +45,9 @@ func vxOriginResp(p string, lo, hi int) *vxOriginRespT {
 		vxTagHeader:     []string{"origin"},
 	}
 	h[vxHdrKey(o.hasExpires, "Expires")] = []string{vxHTTPDateOpt(p + ".expires")}
+	// a validator says nothing about storability (RFC 9111 section 3)
+	o.hasLM = vxBool(p + ".has-lm")
+	h[vxHdrKey(o.hasLM, "Last-Modified")] = []string{"Thu, 01 Jan 1970 00:00:00 GMT"}
 	o.resp = &http.Response{StatusCode: o.status, Header: h, Body: &vxBodyT{tag: 5, fail: o.bodyFail}}
 	return o
 }
